@@ -240,7 +240,11 @@ func init() {
 			if r.SetSize("probe_mix_cert") < 16 || r.SetSize("probe_mix_crl") < 16 || r.SetSize("probe_mix_ocsp") < 16 || r.Counters["recovered_panic_results_judged"] == 0 || r.Counters["global_runs_after_additions"] < 6 {
 				gates = append(gates, "probe-lint part did not realise all 16 status mixes for every kind (or judged no recovered-panic result)")
 			}
-			if r.SetSize("directed_mix_cert") < 12 {
+			needMixes := 12
+			if r.Sets["no_configurable_lint_for_fatal_mixes"]["cert"] > 0 {
+				needMixes = 6 // no configurable certificate lint in this tree: the eight mixes with a fatal cannot be built this way
+			}
+			if r.SetSize("directed_mix_cert") < needMixes {
 				gates = append(gates, fmt.Sprintf("only %d of 16 directed certificate status mixes realised", r.SetSize("directed_mix_cert")))
 			}
 			return gates
@@ -254,15 +258,33 @@ func init() {
 func c01StatusMixes(c *mon.Ctx) {
 	g := lint.GlobalRegistry()
 	for _, kind := range []corpus.Kind{corpus.Cert, corpus.CRL} {
-		cfgLint := "e_rsa_fermat_factorization"
-		ill := "[e_rsa_fermat_factorization]\nRounds = \"many\"\n"
+		// the fatal member of a mix is a configurable lint under a section it cannot use (a scalar where its table is
+		// expected): the shipped ones when the tree still has them, otherwise whatever configurable lint of this kind
+		// the live registry holds (one without a scope gate first)
+		c11Discover()
+		cands := []string{"e_rsa_fermat_factorization"}
 		if kind == corpus.CRL {
-			cfgLint = "e_crl_next_update_invalid"
-			ill = "[e_crl_next_update_invalid]\nSubscriberCRL = \"x\"\n"
+			cands = []string{"e_crl_next_update_invalid"}
 		}
-		if _, ok := InvBy[cfgLint]; !ok {
-			continue
+		for pass := 0; pass < 2; pass++ {
+			for _, cl := range c11Lints {
+				gated := cl.info.Meta.Source == lint.CABFBaselineRequirements || cl.info.Meta.Source == lint.CABFSMIMEBaselineRequirements || cl.info.Meta.Source == lint.CABFCSBaselineRequirements
+				if cl.info.Kind == kind && gated == (pass == 1) {
+					cands = append(cands, cl.info.Name)
+				}
+			}
 		}
+		cfgLint := ""
+		for _, n := range cands {
+			if li, ok := InvBy[n]; ok && li.Kind == kind {
+				cfgLint = n
+				break
+			}
+		}
+		if cfgLint == "" {
+			c.R.Distinct("no_configurable_lint_for_fatal_mixes", kind.String())
+		}
+		ill := cfgLint + " = 7\n"
 		done := map[int]bool{}
 		for _, idx := range W.ByKind[kind] {
 			o := W.Objs[idx]
@@ -308,6 +330,9 @@ func c01StatusMixes(c *mon.Ctx) {
 				}
 				text := ""
 				if mask&8 != 0 {
+					if cfgLint == "" {
+						continue
+					}
 					inc = append(inc, cfgLint)
 					text = ill
 				}
